@@ -751,6 +751,12 @@ func (sd *SpecAnalyser) compareSchema(location DifferenceLocation, schema1, sche
 		schema2, _ = sd.schemaFromRef(getRef(schema2), &sd.Definitions2)
 	}
 
+	if schema1 == nil || schema2 == nil {
+		// a $ref which does not name a definition of the document (a JSON pointer inside a definition,
+		// another document) is not followed: the references themselves have been compared above
+		return
+	}
+
 	sd.compareDescripton(location, schema1.Description, schema2.Description)
 
 	typeDiffs := sd.CompareProps(&schema1.SchemaProps, &schema2.SchemaProps)
